@@ -24,6 +24,15 @@ def jsonStep : List String → Option String
        | .panic _ => some "panic"
        | .fuel => some "fuel")
     | none => some "bad-request"
+  | ["jreject", h] =>
+    match bytesOfHex h with
+    | some b =>
+      (match parseValue b with
+       | .ok v => some ("MISMATCH accepted as " ++ showJV v)
+       | .err _ => some "ok"
+       | .panic _ => some "panic"
+       | .fuel => some "fuel")
+    | none => some "bad-request"
   | _ => none
 
 end Jsonb.Driver
